@@ -115,6 +115,25 @@ func (w *World) mergeOnce(ins []*SegH, drops []*roaring.Bitmap, parts MergeParts
 	maps, size, err := plugin.Merge(segs, drops, p, nil, sr)
 	r.ev("merge %s -> err=%v", strings.Join(names, " + "), err != nil) // sizes are not logged: they vary with zapx's map-ordered section layout
 	if err != nil {
+		if w.Cfg.BadSyn && strings.Contains(err.Error(), "term length is 0") {
+			// an input holds a thesaurus that cannot be loaded (zero-length synonym):
+			// the merge has to read it and fails the same way, leaving no file
+			bad := false
+			for _, h := range ins {
+				for _, t := range h.Canon.Thes {
+					if t.Err != "" {
+						bad = true
+					}
+				}
+			}
+			if bad {
+				if fileExists(p) {
+					r.fail("C17.file-left-behind", "Merge", "Merge failed (%v) but left its output behind", err)
+				}
+				r.count("probe.merge.unloadable-thesaurus-input")
+				return nil
+			}
+		}
 		r.fail("merge-error", "Merge", "Merge failed without any fault injected (%s): %v", strings.Join(names, " + "), err)
 	}
 	total := w.checkMaps(ins, drops, maps)
